@@ -30,26 +30,42 @@ class _Target:
     header = None
 
 
-def _reads(s1, l1, gap, l2, third, g2, mm, spliced=False):
-    """read a covers [s1, s1+l1); read b starts gap after a's end (gap < 0: overlap); optional read c after another gap"""
+def _reads(s1, l1, gap, l2, third, g2, mm, spliced=False, indel=0):
+    """read a covers [s1, s1+l1); read b starts gap after a's end (gap < 0: overlap); optional read c after another gap.
+    indel (read a, needs l1 >= 2): 1 = one inserted base after its first base (1M1I..M), 2 = one deleted reference base after
+    its first base (1M1D..M: read a then covers s1 and s1+2 .. s1+l1).
+    The ground truth (reference position -> observed base, per read) is recorded in _reads.truth, independently of any
+    read accessor."""
     out = []
-    pos = s1
+    truth = []
     specs = [(s1, l1)]
     s2 = s1 + l1 + gap
     specs.append((s2, l2))
     if third:
         specs.append((s2 + l2 + g2, 1))
     for i, (s, l) in enumerate(specs):
-        seq = S.REF[s:s + l]
-        if mm and i == 0:
-            seq = ('T' if seq[0] != 'T' else 'A') + seq[1:]
+        positions = list(range(s, s + l))
         cig = [(0, l)]
         if spliced and i == 1 and l >= 2:
             # read b is spliced: 1M 2N (l-1)M ; it covers s and s+3.. only, the skipped bases are NOT covered
             cig = [(0, 1), (3, 2), (0, l - 1)]
-            seq = S.REF[s] + S.REF[s + 3:s + 3 + l - 1]
-        out.append(FakeRead(query_name='r%d' % i, reference_name='chr1', reference_start=s, cigartuples=cig, seq=seq, qual='I' * l,
+            positions = [s] + list(range(s + 3, s + 3 + l - 1))
+        if indel == 2 and i == 0 and l >= 2:
+            cig = [(0, 1), (2, 1), (0, l - 1)]
+            positions = [s] + list(range(s + 2, s + 2 + l - 1))
+        bases = [S.REFU[p] for p in positions]      # reads carry upper-case bases whatever the masking of the reference
+        if mm and i == 0:
+            bases[0] = 'T' if bases[0] != 'T' else 'A'
+        t = dict(zip(positions, bases))
+        seq = ''.join(bases)
+        if indel == 1 and i == 0 and l >= 2:
+            cig = [(0, 1), (1, 1), (0, l - 1)]
+            ins = 'G' if S.REFU[s + 1] != 'G' else 'C'      # the inserted base differs from the next reference base
+            seq = seq[0] + ins + seq[1:]
+        out.append(FakeRead(query_name='r%d' % i, reference_name='chr1', reference_start=s, cigartuples=cig, seq=seq, qual='I' * len(seq),
                             is_read1=True, is_read2=False, tags={'SM': 'lib_1', 'RX': 'ACG', 'BC': 'ACGT'}))
+        truth.append(t)
+    _reads.truth = truth
     return out
 
 
@@ -61,8 +77,10 @@ def _molecule(reads):
     return m
 
 
-def _l1_blocks(s1: int, l1: int, gap: int, l2: int, third: bool, g2: int) -> bool:
+def _l1_blocks(s1: int, l1: int, gap: int, l2: int, third: bool, g2: int, indel: int) -> bool:
     """
+    pre: 0 <= indel <= 2
+    pre: indel == 0 or l1 >= 2
     pre: 0 <= s1 <= 3
     pre: 1 <= l1 <= 3 and 1 <= l2 <= 3
     pre: -2 <= gap <= 4
@@ -72,9 +90,9 @@ def _l1_blocks(s1: int, l1: int, gap: int, l2: int, third: bool, g2: int) -> boo
     """
     R = list(range(-2, 6))
     s1, l1, gap, l2, g2 = pick(R, s1 + 2), pick(R, l1 + 2), pick(R, gap + 2), pick(R, l2 + 2), pick(R, g2 + 2)
-    reads = _reads(s1, l1, gap, l2, third, g2, False)
+    reads = _reads(s1, l1, gap, l2, third, g2, False, indel=pick([0, 1, 2], indel))
     m = _molecule(reads)
-    cov = S.covered(reads)
+    cov = sorted(set(p for t in _reads.truth for p in t))
     want = S.runs(cov)
     if list(m.get_aligned_blocks()) != want:
         return False
@@ -87,8 +105,10 @@ def _l1_blocks(s1: int, l1: int, gap: int, l2: int, third: bool, g2: int) -> boo
     return [n for op, n in cig if op == 'N'] == gaps and [op for op, n in cig] == (['M', 'N'] * len(want))[:2 * len(want) - 1]
 
 
-def _l2_pseudo_reads(s1: int, l1: int, gap: int, l2: int, third: bool, g2: int, span: int, mm: bool, spliced: bool) -> bool:
+def _l2_pseudo_reads(s1: int, l1: int, gap: int, l2: int, third: bool, g2: int, span: int, mm: bool, spliced: bool, indel: int) -> bool:
     """
+    pre: 0 <= indel <= 2
+    pre: indel == 0 or l1 >= 2
     pre: 0 <= s1 <= 3
     pre: 1 <= l1 <= 3 and 1 <= l2 <= 3
     pre: -2 <= gap <= 4
@@ -99,17 +119,20 @@ def _l2_pseudo_reads(s1: int, l1: int, gap: int, l2: int, third: bool, g2: int, 
     """
     R = list(range(-2, 6))
     s1, l1, gap, l2, g2 = pick(R, s1 + 2), pick(R, l1 + 2), pick(R, gap + 2), pick(R, l2 + 2), pick(R, g2 + 2)   # concrete geometry per path
-    reads = _reads(s1, l1, gap, l2, third, g2, mm, spliced)
+    reads = _reads(s1, l1, gap, l2, third, g2, mm, spliced, indel=pick([0, 1, 2], indel))
     m = _molecule(reads)
     max_N_span = None if span < 0 else pick(R, span + 2)
     out = m.deduplicate_majority(_Target(), 'cons', max_N_span=max_N_span)
-    cov = S.covered(reads)
+    truth = _reads.truth
+    cov = sorted(set(p for t in truth for p in t))
+    if cov != S.covered(reads):
+        return False                      # harness self-check: the reads built expose the intended coverage
     cov_runs = S.runs(cov)
     # expected calls: every covered position has one observed base (all reads agree except the optional mismatch of read 0)
     calls = {}
-    for r in reads:
-        for (q, p) in r.get_aligned_pairs(matches_only=True):
-            calls.setdefault(p, set()).add(r.query_sequence[q])
+    for t in truth:
+        for p, b in t.items():
+            calls.setdefault(p, set()).add(b)
     calls = {p: (list(b)[0] if len(b) == 1 else None) for p, b in calls.items()}
     seen = []
     for rec in out:
@@ -156,25 +179,35 @@ def _l3_call(na: int, nc: int, qa: int, qc: int) -> bool:
     return base in 'ACN'
 
 
-def _l4_md(k: int, m0: bool, m1: bool, m2: bool, m3: bool) -> bool:
+def _l4_md(k: int, m0: bool, m1: bool, m2: bool, m3: bool, c0: bool, c1: bool, c2: bool, c3: bool) -> bool:
     """
     pre: 1 <= k <= 4
     post: _
     """
-    ref = 'ACGT'[:k]
-    q = ''.join((('T' if ref[i] != 'T' else 'A') if f else ref[i]) for i, f in enumerate([m0, m1, m2, m3][:k]))
+    # reference letters may be soft-masked (lower case, flags c*); the query is upper case
+    refu = 'ACGT'[:k]
+    ref = ''.join((ch.lower() if c else ch) for ch, c in zip(refu, [c0, c1, c2, c3]))
+    q = ''.join((('T' if refu[i] != 'T' else 'A') if f else refu[i]) for i, f in enumerate([m0, m1, m2, m3][:k]))
     md = create_MD_tag(ref, q)
     dec, used = S.md_decode(md, q)
-    return used == k and dec == ref
+    if any(ch.isalpha() and not ch.isupper() for ch in md):
+        return False
+    if sum(1 for ch in md if ch.isalpha()) != sum(1 for f in [m0, m1, m2, m3][:k] if f):
+        return False
+    return used == k and dec == refu
 
 
 _T = {'quick': 240, 'thorough': 1200}
 LEMMAS = [
     dict(name='L1_blocks_cigar', fn='_l1_blocks', engine='E1', timeout=_T, replay='replay.C15:replay',
-         cases={'quick': [dict(id='two_l%d' % l, pre=['third == False', 'l1 == %d' % l, 'g2 == 0']) for l in (1, 2, 3)] + [dict(id='three_l%d_s%d' % (l, s), pre=['third == True', 'l1 == %d' % l, 's1 == %d' % s, 'l2 <= 2']) for l in (1, 2) for s in (0, 1)]}),
+         cases={'quick': [dict(id='two_l%d' % l, pre=['third == False', 'l1 == %d' % l, 'g2 == 0']) for l in (1, 2, 3)] + [dict(id='three_l%d_s%d' % (l, s), pre=['third == True', 'l1 == %d' % l, 's1 == %d' % s, 'l2 <= 2', 'indel == 0']) for l in (1, 2) for s in (0, 1)]}),
     dict(name='L2_pseudo_reads', fn='_l2_pseudo_reads', engine='E1', timeout=_T, replay='replay.C15:replay',
-         cases={'quick': [dict(id='%s_span%d_%s' % ('three' if t else 'two', sp, 'mm' if mm else 'match'), pre=['third == %s' % bool(t), 'span == %d' % sp, 'mm == %s' % bool(mm), 's1 <= 1', 'l1 <= 2'] + (['l2 <= 2', 'gap >= 0', 's1 == 0', 'spliced == False'] if t else ['g2 == 0']))
-                          for t in (0, 1) for sp in (-1, 0, 1, 2) for mm in (0, 1)]}),
+         cases={'quick': [dict(id='two_span%d_%s_indel%d' % (sp, 'mm' if mm else 'match', ind), pre=['third == False', 'span == %d' % sp, 'mm == %s' % bool(mm), 's1 <= 1', 'l1 <= 2', 'g2 == 0', 'indel == %d' % ind])
+                          for sp in (-1, 0, 1, 2) for mm in (0, 1) for ind in (0, 1, 2)] +
+                         [dict(id='three_span%d_%s' % (sp, 'mm' if mm else 'match'), pre=['third == True', 'span == %d' % sp, 'mm == %s' % bool(mm), 's1 == 0', 'l1 <= 2', 'l2 <= 2', 'gap >= 0', 'spliced == False', 'indel == 0'])
+                          for sp in (-1, 0, 1, 2) for mm in (0, 1)],
+                'thorough': [dict(id='%s_span%d_%s_indel%d_l%d' % ('three' if t else 'two', sp, 'mm' if mm else 'match', ind, l), pre=['third == %s' % bool(t), 'span == %d' % sp, 'mm == %s' % bool(mm), 'indel == %d' % ind, 'l1 == %d' % l] + (['spliced == False'] if t else ['g2 == 0']))
+                             for t in (0, 1) for sp in (-1, 0, 1, 2, 4) for mm in (0, 1) for ind in (0, 1, 2) for l in (1, 2, 3) if not (ind and l < 2)]}),
     dict(name='L3_call_structure', fn='_l3_call', engine='E1', timeout=_T, replay='replay.C15:replay'),
     dict(name='L4_md_roundtrip', fn='_l4_md', engine='E1', timeout=_T, replay='replay.C15:replay'),
 ]
@@ -182,10 +215,10 @@ LEMMAS = [
 PROPERTY = dict(
     functions=['molecule.Molecule.get_aligned_blocks / get_CIGAR / get_base_confidence_dict / deduplicate_majority / generate_partial_reads / get_dedup_reads / get_consensus_read / write_tags_to_psuedoreads',
                'utils.iteration.find_ranges', 'sequtils.create_MD_tag / phredscores_to_base_call / base_probabilities_to_likelihood'],
-    bounds=dict(coverage='2-3 reads of length 1..3 (third: 1; the second read optionally spliced 1M2N..) with overlap / adjacency / gaps 0..4 between them, start 0..3', max_N_span='None, 0..4', mismatch='optional mismatch in the first read',
+    bounds=dict(coverage='2-3 reads of length 1..3 (third: 1; the second read optionally spliced 1M2N..; the first read optionally with a one-base insertion or deletion after its first base) with overlap / adjacency / gaps 0..4 between them, start 0..3', max_N_span='None, 0..4', mismatch='optional mismatch in the first read',
                 call='two bases with 0..3 observations each at 3 confidence levels'),
     outside=['optimality of the likelihood call over all real-valued qualities (floating point)', 'reverse-strand flag and allele tags of the pseudo-read', 'the --consensus command line (replay only)',
-             'indels in the source reads'],
-    assumptions=['pysam.AlignedSegment inside molecule.py replaced by a FakeRead factory (the replay uses real pysam)', 'FakeFasta reference'],
+             'indels longer than one base or in more than one source read'],
+    assumptions=['the reference contains soft-masked (lower-case) stretches; reads are upper case; MD letters must be upper case and mark true mismatches only', 'pysam.AlignedSegment inside molecule.py replaced by a FakeRead factory (the replay uses real pysam)', 'FakeFasta reference'],
     trusted=['stubs/fakeread.py', 'stubs/fakefasta.py', 'spec/c15.py'],
 )
